@@ -11,10 +11,12 @@ pkg=$(grep -m1 '^package ' $D/demo_test.go | awk '{print $2}')
 case $pkg in bluge) dst=.;; index) dst=index;; *) dst=$(grep -rl "^package $pkg\$" --include=*.go . | head -1 | xargs dirname);; esac
 git apply $D/patch.diff || { echo "RESULT $D apply=FAIL"; exit 1; }
 go build ./... || { echo "RESULT $D build=FAIL"; exit 1; }
-suite=$(go test -mod=mod -vet=off -count=1 ./... 2>&1 | grep -c "^FAIL\|^--- FAIL")
+suiteout=$(go test -mod=mod -vet=off -count=1 ./... 2>&1 | grep "^FAIL\|^--- FAIL")
+suite=$(echo -n "$suiteout" | grep -c .)
+failed=$(echo "$suiteout" | grep -o "^--- FAIL: [A-Za-z0-9_/]*" | sed 's/--- FAIL: //' | sort -u | tr '\n' ',')
 cp $D/demo_test.go $dst/zz_demo_test.go
 go test -mod=mod -vet=off -count=1 -run 'C[0-9][0-9]|Demo|demo' ./$dst/ > /tmp/confirm-$$.log 2>&1; with=$?
 git checkout -q -- . 
 go test -mod=mod -vet=off -count=1 -run 'C[0-9][0-9]|Demo|demo' ./$dst/ > /tmp/confirm-$$.log2 2>&1; without=$?
 rm -f $dst/zz_demo_test.go /tmp/confirm-$$.log /tmp/confirm-$$.log2
-echo "RESULT $D suite_failures_with_change=$suite demo_with_change_rc=$with demo_without_rc=$without"
+echo "RESULT $D suite_failures_with_change=$suite failed_tests=[$failed] demo_with_change_rc=$with demo_without_rc=$without"
